@@ -433,7 +433,7 @@ func c18BytesCheck(c *Ctx, cs c18BytesCase) *Failure {
 
 func TestC18(t *testing.T) {
 	c := NewCtx(t, "C18")
-	RunRapid(c, t, Sub[c18Case]{Kind: "grammar", Quick: 150_000, Thorough: 5_000_000, Gen: genC18, Check: c18Check})
+	RunRapid(c, t, Sub[c18Case]{Kind: "grammar", Quick: 1_000_000, Thorough: 5_000_000, Gen: genC18, Check: c18Check})
 
 	maxLen := 4
 	if c.Thorough() {
@@ -454,7 +454,7 @@ func TestC18(t *testing.T) {
 		return c18BytesCase{Src: nthString(c18ByteAlphabet, l, i-offsets[l])}
 	}, c18BytesCheck, true)
 
-	RunRapid(c, t, Sub[c18BytesCase]{Kind: "bytes-random", Quick: 50_000, Thorough: 3_000_000,
+	RunRapid(c, t, Sub[c18BytesCase]{Kind: "bytes-random", Quick: 300_000, Thorough: 3_000_000,
 		Gen: func(t *rapid.T) c18BytesCase {
 			n := rapid.IntRange(5, 24).Draw(t, "len")
 			b := make([]byte, n)
